@@ -240,10 +240,17 @@ def enc(mod, t, v, out, ch=ref_ber.CANON):
         raise RefExcluded("kind " + k)
 
 
+def _in_root_range(c, v):
+    """X.691 10.x/13.1/16.6: 'within the range of the extension root' - the effective constraint is the range
+    lb..ub of the root, holes of a union are not PER-visible."""
+    lb, ub = c.lb(), c.ub()
+    return (lb is None or v >= lb) and (ub is None or v <= ub)
+
+
 def enc_sized(size, n, out, emit):
     ext, lb, ub = size_bounds(size)
     if ext:
-        if size.contains_root(n):
+        if _in_root_range(size, n):
             out.put(0, 1)
         else:
             out.put(1, 1)
@@ -258,7 +265,7 @@ def enc_integer(rt, v, out):
         put_unconstrained_int(out, v)
         return
     if c.ext:
-        if c.contains_root(v):
+        if _in_root_range(c, v):
             out.put(0, 1)
         else:
             out.put(1, 1)
